@@ -351,8 +351,12 @@ class MessageQueue(Entity):
         msg = self._messages[message_id]
         msg.state = MessageState.ACKNOWLEDGED
 
-        # Remove from in-flight and messages
+        # Remove from in-flight and messages. A message whose redelivery was
+        # scheduled sits in the pending queue again; a late acknowledgment must
+        # take it out of there too, or its stale id blocks the head of the queue.
         self._in_flight.pop(message_id, None)
+        if message_id in self._pending_queue:
+            self._pending_queue.remove(message_id)
         self._messages.pop(message_id, None)
         self._redelivery_scheduled.discard(message_id)
 
@@ -377,10 +381,14 @@ class MessageQueue(Entity):
 
         if requeue and msg.delivery_count < self._max_redeliveries:
             # Requeue for redelivery
+            # (a scheduled redelivery may already have queued it: keep one entry)
             msg.state = MessageState.PENDING
-            self._pending_queue.append(message_id)
+            if message_id not in self._pending_queue:
+                self._pending_queue.append(message_id)
         else:
-            # Dead letter or discard
+            # Dead letter or discard; drop a queued entry so no stale id is left
+            if message_id in self._pending_queue:
+                self._pending_queue.remove(message_id)
             if self._dead_letter_queue is not None:
                 self._dead_letter_queue.add_message(msg)
                 self._messages_dead_lettered += 1
